@@ -31,6 +31,7 @@ type vSessWorld struct {
 	botpGen  int
 	cliToken map[string]string
 	certs    map[string][][]*x509.Certificate
+	ipcerts  map[string][][]*x509.Certificate
 	ticks    int
 	mechs    map[string]bool
 }
@@ -40,10 +41,11 @@ var vSessUsers = []string{"alice", "bob"}
 func newSessWorld(mechs []string) *vSessWorld {
 	w := newWorld(vWorldOpts{CertCfg: []string{"password"}, WebUICfg: []string{"password"}, AdminUsers: []string{"root"}, CLITokens: true})
 	w.st.Config.Base.EnableLocalTOTP = true
+	w.st.Config.Base.AutomationUsers = append([]string{}, vSessUsers...) // their IP-restricted certificates authenticate
 	w.pw.pw["root"] = "pw-root"
 	g := &vSessWorld{w: w, slots: map[string]string{}, tokens: map[string]*vU2FToken{}, secrets: map[string]string{},
 		vipCode: map[string]string{"alice": "111111", "bob": "222222"}, chalFor: map[string]string{}, botpVal: map[string]string{},
-		cliToken: map[string]string{}, certs: map[string][][]*x509.Certificate{}, mechs: map[string]bool{}}
+		cliToken: map[string]string{}, certs: map[string][][]*x509.Certificate{}, ipcerts: map[string][][]*x509.Certificate{}, mechs: map[string]bool{}}
 	for _, m := range mechs {
 		g.mechs[m] = true
 	}
@@ -68,6 +70,7 @@ func newSessWorld(mechs []string) *vSessWorld {
 		}
 		vMust(w.st.SaveUserProfile(u, p))
 		g.certs[u] = w.verifiedChains(vMakeCert(vCertOpts{CN: u, Parent: w.caCert(), ParentKey: vCAKey}))
+		g.ipcerts[u] = w.verifiedChains(w.roleCert(u, vNetblocks()))
 	}
 	return g
 }
@@ -87,6 +90,11 @@ func (g *vSessWorld) cred(q *vReq, args map[string]interface{}) (actor string) {
 	}
 	if cert != "none" {
 		q.Chains = g.certs[cert]
+		if vStr(c, "certkind") == "ip" {
+			// the same principal, authenticated by an IP-restricted (role requesting) certificate from inside its netblock
+			q.Chains = g.ipcerts[cert]
+			q.Remote = vInsideAddr
+		}
 		actor = cert
 	}
 	return actor
